@@ -13,7 +13,7 @@ fn ns_of_eighths(m: u64) -> u64 {
     m * 125_000_000
 }
 
-pub fn generate(rng: &mut Rng, property: &str) -> BScn {
+pub fn generate(rng: &mut Rng, property: &str, deep: bool) -> BScn {
     let extreme = property == "C20";
     let mut knobs = gen_knobs(rng, extreme);
     // Bevy positions are Durations; keep configurations moderate (no astronomical durations here)
@@ -171,7 +171,7 @@ pub fn generate(rng: &mut Rng, property: &str) -> BScn {
     } else {
         *rng.pick(&[4_166_667u64, 16_666_667, 33_333_333, 100_000_000, 370_000_000])
     };
-    let n_frames = rng.range(4, 64) as usize;
+    let n_frames = if deep && rng.chance(0.33) { rng.range(64, 240) as usize } else { rng.range(4, 64) as usize };
 
     // bookkeeping to aim faults (not the oracle): rough position of the Target animator
     let mut cur_tl: Option<usize> = if cfg.selector {
